@@ -677,6 +677,7 @@ class IterIncr(Contract):
     nparams = 0
 
     def spec(self, S):
+        S.requires((S.idx_ >= -(1 << 30)) & (S.idx_ < (1 << 30)), 'index_sane')
         S.assigns(S.v('idx_'))
         S.ensures(S.idx_.eq(S.old.idx_ + 1), 'next_piece')
 
@@ -699,6 +700,7 @@ class SegEnd(Contract):
     def spec(self, S):
         P = S.v('parent_').target
         S.requires(mk_not(S.v('parent_').null()), 'parent_set')
+        S.requires((S.idx_ >= 0) & (S.idx_ < (1 << 30)), 'index_sane')
         S.assigns()
         S.ensures(S.result.eq(P.fields['breakpoints_'].at(S.idx_ + 1)), 'end')
 
@@ -711,6 +713,7 @@ class SegDuration(Contract):
         P = S.v('parent_').target
         bp = P.fields['breakpoints_']
         S.requires(mk_not(S.v('parent_').null()), 'parent_set')
+        S.requires((S.idx_ >= 0) & (S.idx_ < (1 << 30)), 'index_sane')
         S.assigns()
         S.ensures(S.result.eq(bp.at(S.idx_ + 1) - bp.at(S.idx_)), 'duration')
 
